@@ -59,7 +59,9 @@ class ForLoop:
         start = e.start.value
         step = e.step.value
         stop = self.generator.get_integer(e.stop)
-        self.values = np.arange(start, stop + step, step, dtype=int)
+        # The range includes stop only when it is one of start, start + step, ...
+        # (1:2:4 is {1, 3}), so go one past stop, not a whole step past it.
+        self.values = np.arange(start, stop + (1 if step > 0 else -1), step, dtype=int)
         self.index_variable = _new_mx(i.name)
         self.name = i.name
         self.indexed_symbols = OrderedDict()
